@@ -731,7 +731,14 @@ func (r *rig) stepAnnounce(i int, how string, k int) error {
 	n.pos = to
 	idxs := append([]int{}, n.spec.Path[from:to]...)
 	n.mu.Unlock()
-	return r.stepPush(i, how, idxs, fmt.Sprintf("announce %d %s %d", i, how, k))
+	step := fmt.Sprintf("announce %d %s %d", i, how, k)
+	// BIP 130: a block is announced with `headers` only when the announcing node believes the peer has the parent;
+	// otherwise it falls back to `inv`
+	if how == "headers" && !n.peerHas(from) {
+		how = "inv"
+		step += " (parent not known to be with the peer: falls back to inv)"
+	}
+	return r.stepPush(i, how, idxs, step)
 }
 
 func (r *rig) stepPush(i int, how string, idxs []int, step string) error {
